@@ -32,6 +32,9 @@ pub enum Op {
     AddNamed(u8, u16, DataSpec),
     RemoveVertex(u16),
     AddEdge(u16, u16, bool),
+    /// turn a live vertex into a hub: k fresh leaves plus an edge to every live vertex it is not
+    /// yet adjacent to (long neighbour lists, dense rows)
+    Hub(u16, u8, bool),
     RemoveEdge(u16),
     SetEdgeType(u16, bool),
     AddEdgeSmart(u16, u16, bool),
@@ -433,6 +436,38 @@ fn compare<G: GraphLike + PartialEq>(m: &Model, im: &Impl<G>, step: &str) -> Res
     if comps != want {
         return err(format!("component_vertices() = {comps:?}, expected {want:?}"));
     }
+    // derived observers
+    let want_t = m
+        .verts
+        .values()
+        .filter(|v| (v.ty == VType::Z || v.ty == VType::X) && v.phase.1 > 2)
+        .count();
+    if g.tcount() != want_t {
+        return err(format!("tcount() = {}, expected {want_t}", g.tcount()));
+    }
+    if m.verts.is_empty() {
+        if g.depth() != -1.0 {
+            return err(format!("depth() of the empty graph = {}", g.depth()));
+        }
+    } else {
+        let wd = m.verts.values().map(|v| v.row).fold(f64::NEG_INFINITY, f64::max);
+        if g.depth() != wd {
+            return err(format!("depth() = {}, expected {wd}", g.depth()));
+        }
+    }
+    if vs.len() <= 12 {
+        let mut order = vs.clone();
+        order.sort();
+        let am = g.adjacency_matrix(Some(&order));
+        for (i, &a) in order.iter().enumerate() {
+            for (j, &b) in order.iter().enumerate() {
+                let want = a != b && want_edges.contains_key(&(a.min(b), a.max(b)));
+                if am[(i, j)] != want {
+                    return err(format!("adjacency_matrix entry ({a},{b}) = {}, expected {want}", am[(i, j)]));
+                }
+            }
+        }
+    }
     // clone equal
     let c = g.clone();
     if c != *g {
@@ -682,6 +717,50 @@ fn apply(w: &mut World, op: &Op, obs: &mut Obs) -> Result<Option<String>, String
                     im.g.add_edge(p, q)
                 }
             });
+        }
+        Op::Hub(a, k, h) => {
+            let Some(x) = w.m.pick(*a) else { return Ok(None) };
+            let others: Vec<Mid> = w.m.mids().into_iter().filter(|&y| y != x && !w.m.edges.contains_key(&Model::ekey(x, y))).collect();
+            for j in 0..*k as usize {
+                let mid = w.m.next;
+                w.m.next += 1;
+                w.m.verts.insert(
+                    mid,
+                    MV {
+                        ty: VType::Z,
+                        phase: (0, 1),
+                        vars: vec![],
+                        qubit: 0.0,
+                        row: 0.0,
+                    },
+                );
+                add_fresh(&mut w.v, mid, |g| g.add_vertex(VType::Z), &what)?;
+                add_fresh(&mut w.h, mid, |g| g.add_vertex(VType::Z), &what)?;
+                let et = if *h ^ (j % 3 == 2) { EType::H } else { EType::N };
+                w.m.edges.insert(Model::ekey(x, mid), et);
+                both!(w, &what, |im| {
+                    let (p, q) = (im.n(x), im.n(mid));
+                    if j % 2 == 0 {
+                        im.g.add_edge_with_type(p, q, et)
+                    } else {
+                        im.g.add_edge_with_type(q, p, et)
+                    }
+                });
+            }
+            for y in others {
+                let et = if *h { EType::N } else { EType::H };
+                w.m.edges.insert(Model::ekey(x, y), et);
+                both!(w, &what, |im| {
+                    let (p, q) = (im.n(x), im.n(y));
+                    im.g.add_edge_with_type(p, q, et)
+                });
+            }
+            if w.m.neighbors(x).len() > 16 {
+                obs.class("hub-degree>16");
+            }
+            if w.m.neighbors(x).len() > 32 {
+                obs.class("hub-degree>32");
+            }
         }
         Op::RemoveEdge(raw) => {
             let keys: Vec<(Mid, Mid)> = w.m.edges.keys().copied().collect();
@@ -1155,6 +1234,7 @@ fn op_strategy() -> BoxedStrategy<Op> {
             .prop_map(|(k, x, d)| Op::AddNamed(k, x, d)),
         5 => r().prop_map(Op::RemoveVertex),
         8 => (r(), r(), any::<bool>()).prop_map(|(a, b, h)| Op::AddEdge(a, b, h)),
+        1 => (r(), prop_oneof![0u8..4, 4u8..12, 16u8..28], any::<bool>()).prop_map(|(a, k, h)| Op::Hub(a, k, h)),
         3 => r().prop_map(Op::RemoveEdge),
         2 => (r(), any::<bool>()).prop_map(|(a, h)| Op::SetEdgeType(a, h)),
         4 => (r(), r(), any::<bool>()).prop_map(|(a, b, h)| Op::AddEdgeSmart(a, b, h)),
@@ -1192,7 +1272,7 @@ pub fn def(ctx: &Ctx) -> PropertyDef {
     let maxlen = t.pick(40, 150);
     PropertyDef {
         id: "C09",
-        rule: "histories of <=40 (150) operations of the public GraphLike interface with valid arguments resolved against a plain reference model (add vertex typed / with data / named: existing name, free name inside the range, beyond the range; remove vertex; add/remove edge; set edge type; add_edge_smart incl. parallel edges and self-loops on Z/X; set type/phase/coords/vars; inputs/outputs edits; scalar and scalar-factor edits; pack(false|true); clone-and-continue; sub-graph; append; x_to_z; adjoint). After every step both backends are compared with the model (and hence with each other): counts == enumerations, vertex data, each edge once with s<=t, symmetric adjacency, contains_vertex/edge_type_opt/connected over all names incl. dead ones, inputs/outputs, scalar and factors, find_vertex/find_edge witnesses, components, vindex above every name, clone equal and independent, pack = order-preserving renaming. Non-trivial = the history re-uses a hole, packs after deletions, or inserts a name beyond the range. Distinct by hash of the history.",
+        rule: "histories of <=40 (150) operations of the public GraphLike interface with valid arguments resolved against a plain reference model (add vertex typed / with data / named: existing name, free name inside the range, beyond the range; remove vertex; add/remove edge; hub (k<=27 fresh leaves plus an edge to every other live vertex); set edge type; add_edge_smart incl. parallel edges and self-loops on Z/X; set type/phase/coords/vars; inputs/outputs edits; scalar and scalar-factor edits; pack(false|true); clone-and-continue; sub-graph; append; x_to_z; adjoint). After every step both backends are compared with the model (and hence with each other): counts == enumerations, vertex data, each edge once with s<=t, symmetric adjacency, contains_vertex/edge_type_opt/connected over all names incl. dead ones, inputs/outputs, scalar and factors, find_vertex/find_edge witnesses, components, vindex above every name, clone equal and independent, pack = order-preserving renaming. Non-trivial = the history re-uses a hole, packs after deletions, or inserts a name beyond the range. Distinct by hash of the history.",
         assumptions: vec![
             "reference model written for the harness; add_edge_smart's documented case table is re-implemented in the model",
             "find_edge is probed with orientation-symmetric predicates (the hash backend enumerates both orientations)",
